@@ -342,6 +342,50 @@ func genC18(r *RNG, tier string) []Case {
 			addPair(a, b, fmt.Sprintf("exhaustive-window%d", w))
 		}
 	}
+	// the EMPTY set in every representation a caller can hold (the zero value - a nil map -, a literal, the parser's,
+	// the SID-block decoder's, what is left when nothing was ever added): all denote the same set
+	{
+		type rep struct {
+			name string
+			mk   func() replication.Mysql56GTIDSet
+		}
+		reps := []rep{
+			{"zero-value", func() replication.Mysql56GTIDSet { var z replication.Mysql56GTIDSet; return z }},
+			{"literal", func() replication.Mysql56GTIDSet { return replication.Mysql56GTIDSet{} }},
+			{"parsed", func() replication.Mysql56GTIDSet {
+				x, _, _ := replication.VerifParseGTIDSet("MySQL56", "")
+				y, _ := x.(replication.Mysql56GTIDSet)
+				return y
+			}},
+			{"from-sid-block", func() replication.Mysql56GTIDSet {
+				x, _ := replication.NewMysql56GTIDSetFromSIDBlock(make([]byte, 8))
+				return x
+			}},
+			{"built", func() replication.Mysql56GTIDSet { return set56{}.impl() }},
+		}
+		for _, a := range reps {
+			for _, b := range reps {
+				a, b := a, b
+				for _, op := range []string{"contains", "equal"} {
+					op := op
+					cs = append(cs, gtidCase(fmt.Sprintf("g56 op=%s a= b=", op), "empty-"+a.name+"-vs-"+b.name+"-"+op, true, func(resp map[string]string) Outcome {
+						impl := catch(func() string {
+							if op == "contains" {
+								return b01(a.mk().Contains(b.mk()))
+							}
+							return b01(a.mk().Equal(b.mk()))
+						})
+						o := Outcome{Impl: impl, Model: resp["model"], Spec: "1", CorrOK: impl == resp["model"], OracleOK: impl == "1"}
+						if !o.OracleOK {
+							o.Note = fmt.Sprintf("two empty sets (%s, %s) must be equal and contain each other: %s gave %s", a.name, b.name, op, impl)
+							o.FindingKey = "empty-set-" + op
+						}
+						return o
+					}))
+				}
+			}
+		}
+	}
 	// multi-SID and wide random ones
 	n := 4000
 	if tier == "thorough" {
